@@ -8,6 +8,7 @@ package main
 
 import (
 	"bufio"
+	"context"
 	"encoding/json"
 	"fmt"
 	"io"
@@ -28,6 +29,9 @@ type verifJob struct {
 	// Reuse: run on the one App value this process keeps for such jobs (a caller that builds
 	// the app once and calls Run for every request) instead of a fresh GetApp() per run
 	Reuse bool `json:"reuse,omitempty"`
+	// Cancelled: run through RunContext with a context that is already cancelled (a caller whose
+	// request was abandoned): nothing in the program observes the context, the run is the same run
+	Cancelled bool `json:"cancelled,omitempty"`
 }
 
 var verifSharedApp *cli.App
@@ -58,7 +62,7 @@ func verifDrain(r *os.File) chan []byte {
 }
 
 // verifRunApp runs the production app once with stdout/stderr captured
-func verifRunApp(args []string, reuse bool) (run verifRun) {
+func verifRunApp(args []string, reuse, cancelled bool) (run verifRun) {
 	realOut, realErr, realErrWriter := os.Stdout, os.Stderr, cli.ErrWriter
 	ro, wo, err := os.Pipe()
 	if err != nil {
@@ -90,7 +94,13 @@ func verifRunApp(args []string, reuse bool) (run verifRun) {
 			}
 			app = verifSharedApp
 		}
-		runErr = app.Run(args)
+		if cancelled {
+			ctx, cancel := context.WithCancel(context.Background())
+			cancel()
+			runErr = app.RunContext(ctx, args)
+		} else {
+			runErr = app.Run(args)
+		}
 	}()
 	os.Stdout, os.Stderr, cli.ErrWriter = realOut, realErr, realErrWriter
 	wo.Close()
@@ -140,7 +150,7 @@ func verifServe() {
 							j.Reps = 1
 						}
 						for i := 0; i < j.Reps; i++ {
-							run := verifRunApp(append([]string{"hranoprovod-cli"}, j.Args...), j.Reuse)
+							run := verifRunApp(append([]string{"hranoprovod-cli"}, j.Args...), j.Reuse, j.Cancelled)
 							merged := false
 							for k := range rs.Runs {
 								o := &rs.Runs[k]
